@@ -108,6 +108,9 @@ class Run:
         print("%s tier=%s evaluations=%d nontrivial=%d outcomes=%d violations=%d known=%d wall=%.1fs" % (
             self.pid, self.tier, self.evaluations, len(self.nontrivial) + self.nontrivial_extra, len(self.outcomes), len(new),
             len(cov["known_finding_keys"]), ev["wall_s"]))
+        if self.extra.get("harness_error") and not new:
+            sys.stderr.write("HARNESS-ERROR: %s\n" % self.extra["harness_error"])
+            return 2
         return 1 if new else (0 if valid else 2)
 
 
